@@ -53,7 +53,7 @@ func Run(c *run.Ctx) {
 		}
 		idx++
 	}
-	n := c.N(56, 700)
+	n := c.N(56, 1200)
 	for i := 0; i < n; i++ {
 		if c.Mine(idx) {
 			one(c, Case{Kind: "gen", Index: i, Seed: c.Seed, Tier: c.Tier})
